@@ -25,6 +25,11 @@ impl TscTimestamp {
     #[inline]
     #[allow(unreachable_code)]
     pub fn frequency() -> Result<NonZeroU64, TscUnavailable> {
+        #[cfg(divan_verif)]
+        if let Some(frequency) = crate::__verif::vclock_frequency() {
+            return Ok(frequency);
+        }
+
         // Miri does not support inline assembly.
         #[cfg(miri)]
         return Err(TscUnavailable::Unimplemented);
@@ -43,6 +48,11 @@ impl TscTimestamp {
     /// Reads the timestamp counter.
     #[inline(always)]
     pub fn start() -> Self {
+        #[cfg(divan_verif)]
+        if let Some(value) = crate::__verif::vclock_read(false) {
+            return Self { value };
+        }
+
         #[allow(unused)]
         let value = 0;
 
@@ -58,6 +68,11 @@ impl TscTimestamp {
     /// Reads the timestamp counter.
     #[inline(always)]
     pub fn end() -> Self {
+        #[cfg(divan_verif)]
+        if let Some(value) = crate::__verif::vclock_read(true) {
+            return Self { value };
+        }
+
         #[allow(unused)]
         let value = 0;
 
